@@ -8,7 +8,8 @@ One JSON object per input line, one per output line.
         o = "ok" | "pe<k>" | "os"; `path` optional ("-" = standard io)
   {"op":"mk","path":p,"expanded":e,"cwd":c}              → {"relative","absolute","cwd"}
   {"op":"load","cwd":c,"cpd":null|d,"ref":r,"items":[…]} → {"ok","trace":[{"rel","abs","base"}],"spec":[…],"cwd","cpd"}
-        item = {"path":rel} | {"sub":ref,"items":[…]} | {"fail":true}
+        item = {"path":rel} | {"sub":ref,"items":[…]} | {"list":ref,"rels":[rel,…]} | {"fail":true}
+  {"op":"run","cwd":c,"cpd":null|d,"items":[…]}           → the same for `runItems` (a command line), plus "nofail", "stable"
 -/
 import Lean.Data.Json
 import Jap.Core.PathMode
@@ -51,10 +52,11 @@ def outToJson : Out → Json
 partial def itemsOf (j : Json) : List Item :=
   match j with
   | .arr xs => xs.toList.map fun x =>
-      match x.getObjVal? "path", x.getObjVal? "sub" with
-      | .ok (.str p), _ => Item.path p.toList
-      | _, .ok (.str r) => Item.sub r.toList (itemsOf ((x.getObjVal? "items").toOption.getD (.arr #[])))
-      | _, _ => Item.fail
+      match x.getObjVal? "path", x.getObjVal? "sub", x.getObjVal? "list" with
+      | .ok (.str p), _, _ => Item.path p.toList
+      | _, .ok (.str r), _ => Item.sub r.toList (itemsOf ((x.getObjVal? "items").toOption.getD (.arr #[])))
+      | _, _, .ok (.str r) => Item.listFile r.toList ((getStrs x "rels").map String.toList)
+      | _, _, _ => Item.fail
   | _ => []
 
 def resolvedToJson (r : Resolved) : Json :=
@@ -80,8 +82,17 @@ def step (j : Json) : Json :=
     let s : St := ⟨(getStr j "cwd").toList, (getStrOpt j "cpd").map String.toList⟩
     let l : Load := ⟨(getStr j "ref").toList, itemsOf ((j.getObjVal? "items").toOption.getD (.arr #[]))⟩
     let r := runLoad l s
-    let spec := specItems (normAbs (cfgDir s.cwd l.ref)) l.items
+    let spec := resolve l.ref s.cwd :: specItems (normAbs (cfgDir s.cwd l.ref)) l.items
     Json.mkObj [("ok", .bool r.ok), ("trace", .arr (r.trace.map resolvedToJson).toArray), ("spec", .arr (spec.map resolvedToJson).toArray),
+      ("cwd", .str (String.ofList r.st.cwd)),
+      ("cpd", match r.st.cpd with | some d => .str (String.ofList d) | none => .null)]
+  | "run" =>
+    let s : St := ⟨(getStr j "cwd").toList, (getStrOpt j "cpd").map String.toList⟩
+    let items := itemsOf ((j.getObjVal? "items").toOption.getD (.arr #[]))
+    let r := runItems items s
+    Json.mkObj [("ok", .bool r.ok), ("trace", .arr (r.trace.map resolvedToJson).toArray),
+      ("spec", .arr ((specItems s.cwd items).map resolvedToJson).toArray),
+      ("nofail", .bool (noFailItems items)), ("stable", .bool (stableItems s.cwd items)),
       ("cwd", .str (String.ofList r.st.cwd)),
       ("cpd", match r.st.cpd with | some d => .str (String.ofList d) | none => .null)]
   | op => Json.mkObj [("bad-op", .str op)]
